@@ -44,6 +44,15 @@ func timeoutFor(op string) time.Duration {
 	return opTimeout
 }
 
+/* a UI session of hundreds of keys draws hundreds of frames: its watchdog grows with its length */
+func timeoutOf(op Op, name string) time.Duration {
+	t := timeoutFor(name)
+	if keys, ok := op["keys"].([]any); ok && name == "ui" && len(keys) > 60 {
+		t *= 3
+	}
+	return t
+}
+
 func runOp(op Op) (result any, panicMsg string) {
 	name, _ := op["op"].(string)
 	f, ok := execs[name]
@@ -55,6 +64,7 @@ func runOp(op Op) (result any, panicMsg string) {
 		msg string
 	}
 	ch := make(chan outcome, 1)
+	limit := timeoutOf(op, name) // read before the executor starts writing into the op
 	go func() {
 		defer func() {
 			if r := recover(); r != nil {
@@ -66,7 +76,7 @@ func runOp(op Op) (result any, panicMsg string) {
 	select {
 	case o := <-ch:
 		return o.v, o.msg
-	case <-time.After(timeoutFor(name)):
+	case <-time.After(limit):
 		/* report the timeout, but let the runaway call finish (bounded) before the next op
 		   starts, so that leaked goroutines do not pile up and slow everything else down */
 		select {
